@@ -36,6 +36,8 @@ REQUIRED_THEOREMS = ['unitmap_lookup', 'unitmap_listed', 'key_assembly_suffix', 
                      'select_results_from_input', 'select_returns_partial', 'select_misaligned_raises',
                      'extractPre_lockstep_returns', 'filter_ambiguity_only_removes', 'filter_ambiguity_preserves_pairwise',
                      'filter_ambiguity_entry', 'filter_ambiguity_identity',
+                     'separate_units_appended_disjoint', 'separate_units_pairwise_disjoint', 'expand_half_shape',
+                     'expand_half_text_is_slice_partial', 'nwu_expand_half_stale_witness',
                      'nwu_prefix_only_result', 'nwu_prefix_only_suppressed_witness', 'merged_result_text_is_slice']
 RULE = ('exhaustive over every (culture, model, prefix|suffix, unit, spelling) row of the tables wired into the registered '
         'NumberWithUnit models (first extractor/parser pair of each model) × numerals {7} (quick) or {7, 1,234, 0.5 in the '
@@ -412,6 +414,9 @@ def extractor_level(ctx, cfgs):
             sforms = [f for (kd, u, f) in rows if kd == 'suffix']
             pforms = [f for (kd, u, f) in rows if kd == 'prefix']
             seeded = uxrec.seeded_sentences(r, sforms, pforms, getattr(exc, 'connector_token', '') or '', cjk, n_seeded)
+            if cjk:
+                # a half-number consumed by a prefix unit whose relative start coincides with the end of an earlier result
+                seeded += [uxrec.PROBE_HALF, '5元 $ 半', '7元和 $半', '3元 半', '5元半']
             for q in seeded:
                 tasks.append((mt, cul, k, 'seeded', q))
             if type(ep.extractor).__name__ == 'BaseMergedUnitExtractor':
@@ -435,7 +440,10 @@ def extractor_level(ctx, cfgs):
                    failing_input={'op': 'NumberWithUnitExtractor.extract', 'model_type': 'CurrencyModel', 'culture': 'en-us',
                                   'source': uxrec.PROBE_SELECT, 'observed': variant['probe'], 'expected': [(18, 9, '7 dollars')]},
                    property_fails=False)
-    chunks = [({'lockstep': variant['lockstep']}, tasks[i::64]) for i in range(64)]
+    ctx.extra['expand_half_variant'] = ('numbers keep their absolute start (half-stale-start.diff applied)' if variant['pristine_half']
+                                        else 'expand_half_suffix sees the relative starts the loop wrote (nwu_expand_half_stale_witness): '
+                                        '%r -> %r' % (uxrec.PROBE_HALF, variant['probe_half']))
+    chunks = [({'lockstep': variant['lockstep'], 'pristine_half': variant['pristine_half']}, tasks[i::64]) for i in range(64)]
     with mp.Pool(min(16, os.cpu_count() or 4)) as pool_:
         results = pool_.map(uxrec.run_chunk, chunks)
     ops, metas = [], []
